@@ -42,6 +42,19 @@ var variantRules = []struct {
 
 // runRules validates text against a FRESHLY loaded schema on a fresh parse with the given rules
 // (nil = the default call).
+// rulesWithVariants: the full rule list with every rule that has a without-suggestions variant replaced by it
+func rulesWithVariants() []validator.Rule {
+	vrs := append([]validator.Rule{}, standardRules...)
+	for k := range vrs {
+		for _, v := range variantRules {
+			if vrs[k].Name == v.Base.Name {
+				vrs[k] = v.Variant
+			}
+		}
+	}
+	return vrs
+}
+
 func runRules(sdl, text string, rs []validator.Rule) (errs []EErr, crash string) {
 	defer func() {
 		if r := recover(); r != nil {
